@@ -1,6 +1,7 @@
 (* Glue/C13_glue.v — entry point of the extracted runner for C13.
    prog   = VL [VN 0] Ret | VL [VN 1; VN e] Raise | VL [VN 2; VN kind; VB target] Req | VL [VN 3; p; q] Seq
           | VL [VN 4; VB target; p] Locked | VL [VN 5; p] Try | VL [VN 6; VN kind; VB target] AReq (asynchronous, dropped)
+          | VL [VN 7; VB target; VL [VL [VN caught; p] ...]] Reuse: ONE context object entered once per entry (LockCtx.Reuse)
    answer = VL [ VL [opt severity; opt message] ... ]        (the rpc-errors of the n-th reply; opt x = VL [] | VL [x])
    run (VL [VN 1; prog; VN mode; VL pats; VL [answer...]]) ->
        VL [ VL [ VL [VN kind; VB target] ... ];  result ]
@@ -23,6 +24,8 @@ Fixpoint dec_prog (v : val) : prog :=
   | VL [VN 4; VB t; p] => Locked t (dec_prog p)
   | VL [VN 5; p] => Try (dec_prog p)
   | VL [VN 6; VN k; VB t] => AReq k t
+  | VL [VN 7; VB t; VL es] =>
+      Reuse t (map (fun e => match e with VL [VN c; p] => (N.eqb c 1, dec_prog p) | _ => (false, Ret) end) es)
   | _ => Ret
   end.
 
